@@ -61,44 +61,7 @@ func checkC15(c *Ctx) {
 	}
 	c.Expect("R1", 15)
 
-	// ---------------- R2
-	isBuild := func(in ssa.Instruction) bool { return isCallToFn(in, build) }
-	mm := p.deepMatcher(isBuild, 3)
-	nW := 0
-	for _, fn := range p.FuncsIn(hostPkg) {
-		if p.isTestFn(fn) || fn == build {
-			continue
-		}
-		var writes []ssa.Instruction
-		eachInstr(fn, func(_ *ssa.BasicBlock, _ int, in ssa.Instruction) {
-			switch x := in.(type) {
-			case *ssa.MapUpdate:
-				if f, _ := loadedField(x.Map); f == hm || f == hb {
-					writes = append(writes, in)
-				}
-			case *ssa.Call:
-				if isBuiltin(x, "delete") {
-					if f, _ := loadedField(x.Call.Args[0]); f == hm || f == hb {
-						writes = append(writes, in)
-					}
-				}
-			case *ssa.Store:
-				if f, base := fieldAddr(x.Addr); (f == hm || f == hb) && !isFreshAlloc(base) {
-					writes = append(writes, in)
-				}
-			}
-		})
-		for i, w := range writes {
-			nW++
-			site := fmt.Sprintf("%s tier write#%d", fnKey(fn), i+1)
-			path := findPath(posOf(w), pathQuery{target: isReturn, avoid: mm})
-			if path != nil {
-				c.Fail("R2", site, w.Pos(), "after a healthy tier is modified a path returns without rebuilding the cache ("+p.pathString(path)+"): Healthy() keeps reporting removed or unhealthy hosts")
-			} else {
-				c.OK("R2", site, w.Pos(), "every path after the write reaches buildHealthyCache")
-			}
-		}
-	}
+	checkTierRebuild(c, "R2")
 	c.Expect("R2", 4)
 
 	// ---------------- R3
@@ -461,4 +424,54 @@ func checkRemovalIdentity(c *Ctx, rule string) {
 	if n == 0 {
 		c.Unresolved(rule, "no delete from Set.all")
 	}
+}
+
+// checkTierRebuild: every function that writes or replaces a healthy tier reaches buildHealthyCache on every path.
+func checkTierRebuild(c *Ctx, rule string) {
+	p := c.P
+	hm := p.Field(hostPkg, "Set", "healthyMain")
+	hb := p.Field(hostPkg, "Set", "healthyBackup")
+	build := p.Func(hostPkg, "(*Set).buildHealthyCache")
+	if hm == nil || hb == nil || build == nil {
+		c.Unresolved(rule, "Set.healthyMain/healthyBackup/buildHealthyCache")
+		return
+	}
+	isBuild := func(in ssa.Instruction) bool { return isCallToFn(in, build) }
+	mm := p.deepMatcher(isBuild, 3)
+	nW := 0
+	for _, fn := range p.FuncsIn(hostPkg) {
+		if p.isTestFn(fn) || fn == build {
+			continue
+		}
+		var writes []ssa.Instruction
+		eachInstr(fn, func(_ *ssa.BasicBlock, _ int, in ssa.Instruction) {
+			switch x := in.(type) {
+			case *ssa.MapUpdate:
+				if f, _ := loadedField(x.Map); f == hm || f == hb {
+					writes = append(writes, in)
+				}
+			case *ssa.Call:
+				if isBuiltin(x, "delete") {
+					if f, _ := loadedField(x.Call.Args[0]); f == hm || f == hb {
+						writes = append(writes, in)
+					}
+				}
+			case *ssa.Store:
+				if f, base := fieldAddr(x.Addr); (f == hm || f == hb) && !isFreshAlloc(base) {
+					writes = append(writes, in)
+				}
+			}
+		})
+		for i, w := range writes {
+			nW++
+			site := fmt.Sprintf("%s tier write#%d", fnKey(fn), i+1)
+			path := findPath(posOf(w), pathQuery{target: isReturn, avoid: mm})
+			if path != nil {
+				c.Fail(rule, site, w.Pos(), "after a healthy tier is modified a path returns without rebuilding the cache ("+p.pathString(path)+"): Healthy() keeps reporting removed or unhealthy hosts")
+			} else {
+				c.OK(rule, site, w.Pos(), "every path after the write reaches buildHealthyCache")
+			}
+		}
+	}
+
 }
